@@ -416,4 +416,47 @@ PROPS = {
         ],
         "partial": ["export resolution is proved for the model; tree shape is decided per explored output by a proved-sound checker (the SymbolFiller is not modelled); go-to-definition is proved terminating/sound only for the fragment without qualified names (C16_goto_*_partial), the unrestricted termination claim is false (F-C16c)"],
     },
+    "C08": {
+        "harness": "c08",
+        "props_file": "Props/C08.v",
+        "run_module": "Model.TextPos Model.Pragma Model.RunC08",
+        "run_fn": "run_c08",
+        "pinned_theorems": ["C08_pos_roundtrip", "C08_pos_roundtrip_bom_refuted", "C08_pos_inside_char_refuted",
+                            "C08_pos_monotone", "C08_slice_exact", "C08_recognise_capture", "C08_range_exact",
+                            "C08_range_html_comment_refuted", "C08_quoteless_capture_swallows_refuted", "C08_includes", "C08_lookup_own_range", "C08_lookup",
+                            "C08_lookup_touching_refuted", "C08_ranges_apart_decided", "C08_items_apart_decided",
+                            "C08_deps_apart_lookup", "C08_quoted_judge_correct", "C08_literal_judge_correct",
+                            "C08_once_judge_correct"],
+        "rule": ("(1) every module source embedded in /repo/tests/specs/**/*.txt (spec-file format of "
+                 "tests/specs_test.rs; JS/TS-like media types) and hand-written seeds, (2) generated programs "
+                 "(80% structured with a planted dependency list, 20% adversarial): js/mjs/cjs/jsx/ts/mts/tsx/d.ts, "
+                 "LF/CRLF/CR, BOM, shebang, header pragmas (triple-slash path/types+resolution-mode, @ts-self-types, "
+                 "@jsxImportSource(+Types), wrong-kind look-alikes), static imports/exports (attributes, type-only, "
+                 "import-equals, declare module), import types incl. nested, dynamic import/require with literal, "
+                 "template, concatenation and opaque arguments inside functions/try/if, @ts-types/@deno-types incl. "
+                 "quote-less, JSDoc import()/@import, sourceMappingURL, string literals with \\x, \\u, \\u{}, "
+                 "line-continuation escapes, trivia with non-ASCII/astral/combining characters on the same line: the "
+                 "REAL ParserModuleAnalyzer::analyze_sync and the REAL deno_graph::parse_module are run; every "
+                 "reported specifier range is mapped back with the extracted offset_of_pos and judged by the proved "
+                 "Coq procedures (slice = literal whose cooked value per the real parser is the reported text / "
+                 "quoted or quote-less pragma text; pairwise separation; planted = reported as multisets; "
+                 "first/middle/last/end position lookups through the real Dependency::includes return the owning "
+                 "dependency); for pragma items the model's recogniser + comment_range run on the real comment must "
+                 "reproduce the reported (range, text, resolution mode); (3) 50 000 comment texts per regex function "
+                 "(x10) structured around the keyword: random case, U+017F, Unicode White_Space and look-alikes, "
+                 "quote variants, near-misses, second candidates - model recogniser vs the real find_* functions; "
+                 "(4) 20 000 texts: pos_of_offset on EVERY byte offset vs the real Position::from_source_pos "
+                 "(text_lines), incl. offsets inside multi-byte characters and BOM-led texts. non-trivial = analysis "
+                 "case with >= 2 reported items, a line break or non-ASCII text, and an item not at 0:0 / batch with "
+                 "both matching and non-matching texts / batch with a line break and a multi-byte character"),
+        "assumptions": [
+            "the SWC parser is not modelled: completeness of dependency discovery w.r.t. real syntax is sampled by the generator (planted = reported) and not proved (layer (b) of DESIGN.md C08, the mini-syntax collector model, is not built yet)",
+            "the cooked value of a string / template literal is data computed by the real parser on the slice",
+            "the JSDoc mini-parsers (monch) are not modelled; their output is judged, not predicted",
+            "known findings F-C08a (HTML-like comments: ranges off by one / analysis panics) and F-C08b (a quote-less pragma capture that swallows a JSDoc import) are reported as KNOWN-FINDING",
+        ],
+        "partial": ["theorems cover range arithmetic, recognisers and lookups for all strings; 'every dependency exactly once' "
+                    "is decided per generated program by the proved multiset judge, not proved over a syntax model",
+                    "C08_pos_roundtrip excludes offset 0 of a BOM-led text and offsets inside a character (both refuted with witnesses that agree with text_lines)"],
+    },
 }
